@@ -93,9 +93,11 @@ Definition SumOfMinterms_m (wa wr a : Z) (ms : list Z) : Z :=
   let bits := BitsLSBF_m wa a in
   Or_m wr (map (fun m => Minterm_m 1 m bits) ms).
 
-(* EqualConstant (relational.py:107-119): width 1 -> Not (v == 0) or Buf (v <> 0); else BitsLSBF + Minterm *)
+(* EqualConstant (relational.py:107-122): width 1 -> Not when (v & 1) == 0, else Buf (HEAD after the fix "EqualConstant on a 1-bit
+   operand compares with the constant modulo 2"; before it the test was v == 0, the same for constants that fit);
+   else BitsLSBF + Minterm *)
 Definition EqualConstant_m (wa wr v a : Z) : Z :=
-  if wa =? 1 then (if v =? 0 then Not_m wr a else Buf_m wr a)
+  if wa =? 1 then (if Z.land v 1 =? 0 then Not_m wr a else Buf_m wr a)
   else Minterm_m wr v (BitsLSBF_m wa a).
 Definition NotEqualConstant_m (wa wr v a : Z) : Z := Not_m wr (EqualConstant_m wa 1 v a).
 
